@@ -101,10 +101,13 @@ def machine_cases(draw, tier):
     n_ops = draw(st.integers(3, 25))
     ops = []
     for _ in range(n_ops):
-        kind = draw(st.sampled_from(["read"] * 4 + ["adv"] * 3 + ["drift", "vol", "shock", "shock", "corr", "uncorr", "remove"]))
+        kind = draw(st.sampled_from(["read"] * 4 + ["adv"] * 3 + ["drift", "vol", "shock", "shock", "corr", "uncorr", "remove", "addlate"]))
         i = draw(st.integers(0, n - 1))
         if kind == "remove":
             ops.append(["remove", i])
+        elif kind == "addlate":
+            # a new (deterministic) series listed in mid-run, starting at the current time
+            ops.append(["addlate", i, draw(st.sampled_from([50.0, 200.0, 1234.5])), draw(st.sampled_from([0.0, 0.003, -0.002]))])
         elif kind == "read":
             ds = draw(st.lists(st.sampled_from([-120, -30, -3, -1, 0, 1, 2, 5, 60, 99, 100, 101, 130]), min_size=1, max_size=4))
             ops.append(["read", i, ds, draw(st.booleans())])
@@ -177,6 +180,7 @@ def machine_check(case):
     segs = {i: [(sa[i], case["markets"][i]["initial"], drifts[i])] for i in range(n)}
     ever_vol = [v > 0 for v in vols]
     shocked0 = set()
+    n_late = 0
     flags = set()
     corr_now = dict(pairs)
 
@@ -304,6 +308,20 @@ def machine_check(case):
                 continue
             _call(f.remove_correlation, market_id1=i, market_id2=j, time=t)
             corr_now = trial
+        elif kind == "addlate":
+            new_id = n + n_late
+            n_late += 1
+            _call(f.add_market, market_id=new_id, initial=op[2], drift=op[3], volatility=0.0, start_at=t)
+            for dt in (0, 1, 7, 60):
+                v = _call(f.get_fundamental_price, market_id=new_id, time=t + dt)
+                want = op[2] * math.exp(op[3] * dt)
+                if not math.isclose(v, want, rel_tol=1e-9):
+                    raise Violation("C12.closed_form", f"series {new_id} listed at time {t} with initial {op[2]} and drift {op[3]} (volatility 0): value at {t}+{dt} is {v!r}, "
+                                                       f"expected {want!r}")
+            for u in range(0, t + 1, max(1, t // 3 or 1)):
+                if _call(f.get_fundamental_price, market_id=new_id, time=u) != op[2]:
+                    raise Violation("C12.initial_value", f"series {new_id} listed at time {t}: value at the earlier time {u} is not its initial value")
+            flags.add("listed_late")
         elif kind == "shock":
             # the real thing: Market.change_fundamental_price at the market's current time
             if t < sa[i]:
